@@ -89,14 +89,8 @@ def jobs(tier):
     js.append(A('agg_add', 'add', 'c_add', [r'tlx::Aggregate<double>::add\('], stubs=False, what='Aggregate::add: count, min, max exact; first value sets mean exactly'))
     js.append(A('agg_pure_cm', 'pure', 'c_pure', [CM], extra=['PUREFN=CMFN'], stubs=False, what='combine_means writes nothing'))
     js.append(A('agg_pure_cv', 'pure', 'c_pure', [CV], extra=['PUREFN=CVFN'], stubs=False, what='combine_variance writes nothing'))
-    js.append(A('agg_dep_cm', 'dep', 'c_dep', [CM], extra=['PUREFN=CMFN', 'DEP_NVAR=0'], stubs=False, what='combine_means depends only on (mean, count) of both operands'))
-    js.append(A('agg_dep_cv', 'dep', 'c_dep', [CV], extra=['PUREFN=CVFN', 'DEP_NVAR=1'], stubs=False, what='combine_variance depends only on (mean, nvar, count) of both operands'))
     js.append(A('agg_plus', 'plus', 'c_plus', [r'tlx::Aggregate<double>::operator\+\('],
                 what='operator+: count/min/max exact; mean and variance sum are the helpers applied to (a, b) [helpers abstracted as uninterpreted functions]'))
-    js.append(A('agg_plus_empty_right', 'plus_empty', 'c_plus_empty', [r'tlx::Aggregate<double>::operator\+\(', CM, CV], stubs=False, unwind=None,
-                what='a + empty: every observable (count, min, max, mean, variance ddof 0/1) equals a\'s, real floating-point helper bodies'))
-    js.append(A('agg_plus_empty_left', 'plus_empty', 'c_plus_empty', [r'tlx::Aggregate<double>::operator\+\(', CM, CV], stubs=False, extra=['EMPTY_A'],
-                what='empty + b: every observable equals b\'s, real floating-point helper bodies'))
     js.append(A('agg_pluseq', 'pluseq', 'c_pluseq', [r'tlx::Aggregate<double>::operator\+=\('], what='a += b leaves exactly the five fields that a + b returns [helpers abstracted as uninterpreted functions]', witness_defines=['WITNESS_GENERIC']))
     js.append(A('agg_pluseq_self', 'pluseq', 'c_pluseq', [r'tlx::Aggregate<double>::operator\+=\('], extra=['B_IS_A'], what='a += a leaves exactly what a + a returns'))
     return js
@@ -106,6 +100,9 @@ META = {
     'level': 'proof',
     'assumptions': ['the four inline-asm rotate templates (roll/rorl/rolq/rorq %cl) are mapped to C rotates by ir2c: trusted semantics',
                     'llvm.ctlz/cttz/ctpop/bswap intrinsics are mapped to CBMC built-ins of the same name: trusted semantics'],
-    'not_decided': ['Aggregate: mean and variance equal those of a single feed up to rounding (floating-point error bound; outside this technique)'],
+    'not_decided': ['Aggregate: a + empty == a for mean/variance with the real floating-point helper bodies (no installed back end finishes the double multiply/divide circuits in 10 min; attempted, see DESIGN)',
+                    'Aggregate: that combine_means/combine_variance depend only on the fields the uninterpreted abstraction keys on is assumed (self-composition check timed out)',
+                    'round_up<int64_t> (timed out at 50 min) and the divisibility clause of round_up at 32/64 bit',
+                    'Aggregate: mean and variance equal those of a single feed up to rounding (floating-point error bound; outside this technique)'],
     'explanation': 'each helper is enforced against its defining property for every argument value of its width; width-bounded loops are unwound with unwinding assertions (complete)',
 }
